@@ -52,7 +52,7 @@ def cases(rng, tier):
     scale = {"quick": 1, "search": 2, "thorough": 8}[tier]
     out = fixture_cases()
     for i in range(30 * scale):
-        s = sink.sink(rng)
+        s = sink.sink(rng, wg_overrides=True)
         o = rng.choice(structcases.ALL_OPTS)
         out.append({"wgsl": s["wgsl"], "family": "sink", "opts": dict(o)})
     for c in structcases.cases(rng, "quick", nbase=14 * scale, square_mats_only=False):
